@@ -433,7 +433,7 @@ def gap_rows():
     with open(src, "w") as f:
         f.write("From Coq Require Import NArith List String.\nFrom Falco Require Import Model.TablesGaps.\nImport ListNotations.\n"
                 "Open Scope N_scope.\nOpen Scope string_scope.\nEval vm_compute in all_gap_rows.\nEval vm_compute in domain_sizes.\n")
-    rc, out = V.sh(["timeout", "300", "coqc", "-R", V.COQ, "Falco", "-o", os.path.join(V.BUILD, "C05PrintGaps.vo"), src], cwd=V.BUILD, timeout=330)
+    rc, out = V.sh(["timeout", "2400", "coqc", "-R", V.COQ, "Falco", "-o", os.path.join(V.BUILD, "C05PrintGaps.vo"), src], cwd=V.BUILD, timeout=2430)
     if rc != 0:
         return None, None, out
     t = re.sub(r"\s+", " ", out)
